@@ -11,7 +11,7 @@
 extern "C" {
 #endif
 
-#define RT_MAXT 12
+#define RT_MAXT 48
 
 /* ---- what a scenario file provides ------------------------------------------------ */
 typedef struct rt_scenario_s {
